@@ -4,6 +4,7 @@ CONSTANTS
   MaxLines = 6
   LimitN = 5
   MaxFds = 0
+  DeferPop = FALSE
   Guided = TRUE
   TSet = {1, 2, 3, 4, 5, 6, 7, 8, 9, 10, 11, 12, 13, 14, 15, 16, 17, 18, 19, 20, 21, 22, 23, 24}
 INVARIANTS Emit Refines
